@@ -45,6 +45,7 @@ type plMsg struct {
 	Lg   int64  // logical part
 	Part string // partition name ("" = default)
 	Old  bool   // addressed to the earlier, dropped incarnation of the partition (another partition id, same name)
+	New  bool   // addressed to the NEXT incarnation of the partition: the name is dropped and created again during the run
 }
 
 type plPack struct {
@@ -89,8 +90,9 @@ type plDriver struct {
 	AfterStop       bool
 	// AfterBarrier: the driver becomes enabled when every shard of the first collection has signalled its barrier
 	AfterBarrier bool
-	// OldPart: the announcement is about the earlier incarnation of the partition (its old id)
+	// OldPart: the announcement is about the earlier incarnation of the partition (its old id); NewPart: about the next one
 	OldPart bool
+	NewPart bool
 }
 
 type plScenario struct {
@@ -190,6 +192,9 @@ func (t *plTarget) GetPartitionInfo(ctx context.Context, name, db string) (*mode
 func (t *plTarget) GetDatabaseName(ctx context.Context, coll, db string) (string, error) {
 	return db, nil
 }
+
+// plNewIncOffset: downstream id of the second incarnation of a partition = id of the first + this
+const plNewIncOffset = 100
 
 // plFillerEvent: requests of other collections that fill the event queue (the consumer discards them)
 const plFillerEvent = api.ReplicateAPIEventType(99)
@@ -296,6 +301,7 @@ type plSrcMsg struct {
 	PartID  int64
 	Pack    int
 	Finger  string // payload fingerprint
+	NewInc  bool   // addressed to the second incarnation of its partition
 }
 
 func plFinger(m msgstream.TsMsg) string {
@@ -311,6 +317,9 @@ func plFinger(m msgstream.TsMsg) string {
 	}
 	return m.Type().String()
 }
+
+// newPartID: the id the partition name gets when it is created again during the run
+func (c *plColl) newPartID(name string) int64 { return c.partID(name) + 7000 }
 
 // oldPartID: the id the partition name had in its earlier, dropped incarnation
 func (c *plColl) oldPartID(name string) int64 { return c.partID(name) + 5000 }
@@ -391,6 +400,15 @@ func plBuildLog(c *plColl, sh *plShard, seq *int, posPChannel bool) ([]*msgstrea
 				panic("unknown msg kind " + m.Kind)
 			}
 			kind, pid := m.Kind, c.partID(m.Part)
+			if m.New {
+				pid = c.newPartID(m.Part)
+				switch x := tm.(type) {
+				case *msgstream.InsertMsg:
+					x.PartitionID = pid
+				case *msgstream.DeleteMsg:
+					x.PartitionID = pid
+				}
+			}
 			if m.Old {
 				// (dropped on both sides: the statement allows such a message to be left out, the oracle does not expect it)
 				kind, pid = m.Kind+"Old", c.oldPartID(m.Part)
@@ -402,7 +420,7 @@ func plBuildLog(c *plColl, sh *plShard, seq *int, posPChannel bool) ([]*msgstrea
 				}
 			}
 			pack.Msgs = append(pack.Msgs, tm)
-			src = append(src, &plSrcMsg{ID: id, Stream: sh.SrcV, Coll: c.ID, Kind: kind, Ts: ts, Part: part, PartID: pid, Pack: pi, Finger: plFinger(tm)})
+			src = append(src, &plSrcMsg{ID: id, Stream: sh.SrcV, Coll: c.ID, Kind: kind, Ts: ts, Part: part, PartID: pid, Pack: pi, Finger: plFinger(tm), NewInc: m.New})
 		}
 		// the dispatcher ends every pack with the time tick that closed it
 		pack.Msgs = append(pack.Msgs, &msgstream.TimeTickMsg{
@@ -695,6 +713,9 @@ func plExecute(t *testing.T, sc *plScenario, ctl *sched.Ctl) *plRun {
 				if d.OldPart {
 					pid = c.oldPartID(d.Part)
 				}
+				if d.NewPart {
+					pid = c.newPartID(d.Part)
+				}
 				err = r.mgr.AddPartition(tctx, &model.DatabaseInfo{ID: 1, Name: c.DB}, c.info(),
 					&pb.PartitionInfo{PartitionID: pid, PartitionName: d.Part, CollectionId: c.ID, PartitionCreatedTimestamp: plTs(950, 0), State: d.PartState})
 			case "stop":
@@ -903,6 +924,10 @@ func (r *plRun) applyEvent(e *api.ReplicateAPIEvent) {
 	case api.ReplicateCreatePartition:
 		if ci, ok := r.target.colls[k]; ok {
 			ci.Partitions[e.PartitionInfo.PartitionName] = c.tgtPartID(e.PartitionInfo.PartitionName)
+			if e.PartitionInfo.PartitionID == c.newPartID(e.PartitionInfo.PartitionName) {
+				// (the downstream gives a partition that is created again a new id)
+				ci.Partitions[e.PartitionInfo.PartitionName] += plNewIncOffset
+			}
 		}
 	case api.ReplicateDropPartition:
 		if ci, ok := r.target.colls[k]; ok && !r.sc.SlowDropOnTarget {
